@@ -85,6 +85,49 @@ int main(int argc, char** argv) {
         emitted++;
     }
     bool thinMode = argc > 3 && std::string(argv[3]) == "thin";
+    // a check after which the opponent has at most two legal replies, one of them a special evasion (double pawn push interposing,
+    // en-passant capture, promotion): roots where "is it mate?" hinges on the evasion generator used inside the search
+    auto forcingCheck = [](Position& pos) -> bool {
+        MoveList ml; legalMoves(pos, ml);
+        for (int i = 0; i < ml.size; i++) {
+            UndoInfo ui; pos.makeMove(ml[i], ui);
+            bool hit = false;
+            if (MoveGen::inCheck(pos)) {
+                MoveList rl; legalMoves(pos, rl);
+                if (rl.size >= 1 && rl.size <= 2)
+                    for (int k = 0; k < rl.size; k++) {
+                        int pc = pos.getPiece(rl[k].from());
+                        bool pawn = pc == Piece::WPAWN || pc == Piece::BPAWN;
+                        if (pawn && (std::abs(rl[k].to().asInt() - rl[k].from().asInt()) == 16 || rl[k].to() == pos.getEpSquare() || rl[k].promoteTo() != Piece::EMPTY)) hit = true;
+                    }
+            }
+            pos.unMakeMove(ml[i], ui);
+            if (hit) return true;
+        }
+        return false;
+    };
+    int forced = 0;
+    for (int tries = 0; thinMode && forced < count / 4 && tries < 400000; tries++) {
+        Position pos;
+        if (tries % 2 == 0) {
+            RawPos r = gen.gen();
+            try { pos = TextIO::readFEN(rawFen(r)); } catch (const ChessParseError&) { continue; }
+        } else {
+            pos = TextIO::readFEN(fens[rnd.nextInt((int)fens.size())]);
+            int plies = 10 + rnd.nextInt(70);
+            for (int k = 0; k < plies; k++) {
+                MoveList ml; legalMoves(pos, ml);
+                if (ml.size == 0) break;
+                Move m = ml[rnd.nextInt(ml.size)];
+                if (rnd.nextInt(100) < 60)
+                    for (int t = 0; t < 6; t++) { const Move& c = ml[rnd.nextInt(ml.size)]; if (pos.getPiece(c.to()) != Piece::EMPTY) { m = c; break; } }
+                UndoInfo ui; pos.makeMove(m, ui);
+            }
+        }
+        MoveList ml; legalMoves(pos, ml);
+        if (ml.size == 0 || MoveGen::inCheck(pos) || pos.getHalfMoveClock() >= 80) continue;
+        if (forcingCheck(pos)) { emit("thin", pos, TextIO::toFEN(pos), {}, ml.size); emitted++; forced++; }
+    }
     while (thinMode && emitted < count) {
         // capture-happy random games: sparse middlegames / endgames with 6..14 men, both sides keeping some material
         Position pos = TextIO::readFEN(rnd.nextInt(3) ? fens[0] : fens[rnd.nextInt((int)fens.size())]);
